@@ -34,6 +34,7 @@ type Engine struct {
 	escCache  map[*ssa.Alloc]bool
 	sizeCache map[*ssa.Function]int
 	fnByKey   map[string]*ssa.Function
+	idCache   map[string]bool
 	unbound   []string
 }
 
@@ -677,4 +678,66 @@ func (e *Engine) typeByName(name string) types.Type {
 	}
 	e.typeID(t)
 	return t
+}
+
+// ifaceAllIdentity: is every type of the loaded program that implements the
+// interface type t represented with an identity payload (pointer, integer,
+// bool, map, func, chan)?
+func (e *Engine) ifaceAllIdentity(t types.Type) bool {
+	it, ok := t.Underlying().(*types.Interface)
+	if !ok || it.NumMethods() == 0 {
+		return false
+	}
+	key := typeKey(t)
+	e.mu.Lock()
+	if e.idCache == nil {
+		e.idCache = map[string]bool{}
+	}
+	if v, ok := e.idCache[key]; ok {
+		e.mu.Unlock()
+		return v
+	}
+	e.mu.Unlock()
+	all := true
+	identity := func(ct types.Type) bool {
+		switch u := ct.Underlying().(type) {
+		case *types.Pointer, *types.Map, *types.Signature, *types.Chan:
+			return true
+		case *types.Basic:
+			return u.Info()&(types.IsInteger|types.IsBoolean) != 0
+		}
+		return false
+	}
+	for _, tp := range e.tpkgs {
+		for _, name := range tp.Scope().Names() {
+			tn, ok := tp.Scope().Lookup(name).(*types.TypeName)
+			if !ok || tn.IsAlias() {
+				continue
+			}
+			nt := tn.Type()
+			if _, isIface := nt.Underlying().(*types.Interface); isIface {
+				continue
+			}
+			if types.Implements(nt, it) && !identity(nt) {
+				all = false
+			}
+			// pointer receiver implementations are identity-boxed by construction
+		}
+	}
+	e.mu.Lock()
+	e.idCache[key] = all
+	e.mu.Unlock()
+	return all
+}
+
+// allocFor finds the Alloc of a local variable object in fn (nil if none).
+func allocFor(fn *ssa.Function, obj types.Object) *ssa.Alloc {
+	for _, b := range fn.Blocks {
+		for _, in := range b.Instrs {
+			if a, ok := in.(*ssa.Alloc); ok && a.Comment == obj.Name() && a.Pos() == obj.Pos() {
+				return a
+			}
+		}
+	}
+	return nil
 }
